@@ -56,6 +56,23 @@ def gen_trace(seed, world, tier):
         rank = 0
     sigma = [v if i < rank else 0.0 for i, v in enumerate(base)]
     A = {"gen": "psvd", "m": m, "n": n, "sigma": sigma, "seed": R_.randrange(10 ** 6)}
+    # structured special cases an implementation may have a fast path for: exactly Hermitian
+    # (indefinite), exactly diagonal, exactly real input - same singular values, other structure
+    struct = R_.choice(["none", "none", "none", "herm_indef", "diag", "realq"])
+    if struct == "herm_indef" and m == n and rank == k and len(set(sigma)) == k:
+        lam = [v * R_.choice([1, -1]) for v in sigma]
+        if all(v > 0 for v in lam):
+            lam[0] = -lam[0]
+        A = {"gen": "herm", "n": n, "lam": lam, "seed": R_.randrange(10 ** 6)}
+    elif struct == "diag" and m == n:
+        vals = [[v * c for c in R_.choice([[1.0, 0, 0, 0], [0, 1.0, 0, 0], [0.6, 0, 0.8, 0], [-1.0, 0, 0, 0]])] for v in sigma]
+        R_.shuffle(vals)
+        A = {"gen": "diagq", "vals": vals}
+    elif struct == "realq" and fam == "simple":
+        A = {"gen": "realq", "m": m, "n": n, "seed": R_.randrange(10 ** 6)}
+        sigma = None
+    else:
+        struct = "none"
     scale = R_.choice([0, 0, 0, 0, 0, -3, 3, -6, 6, -9, 9, -13, 13])   # "for every quaternion matrix"
     if scale:
         A = {"gen": "scale", "of": A, "c": 10.0 ** scale}
@@ -70,7 +87,11 @@ def gen_trace(seed, world, tier):
         fn, kw = "decomp.qsvd.pass_eff_qsvd", {"oversample": P, "n_passes": R_.randint(2, 5)}
     tags = {"routine": routine, "m": m, "n": n, "rank": rank, "R": Rk, "P": P, "family": fam,
             "wide_sketch": Rk + P > k, "zero": rank == 0, "scale": scale}
-    tags.update(regime_tags(sigma, Rk))
+    tags["struct"] = struct
+    if sigma is None:       # real Gaussian input: generic, distinct singular values, full rank
+        tags.update({"rank_lt_R": False, "repeated_sv": False, "numrank": k, "rank": k})
+    else:
+        tags.update(regime_tags(sigma, Rk))
     steps = [{"k": "rng", "op": "seed", "v": R_.randrange(10 ** 6), "client": 0}]
     for _ in range(R_.randint(0, 2)):
         if R_.random() < 0.7:
@@ -249,6 +270,8 @@ def simplify(trace):
                 st["kwargs"][fld] = val
             out.append(tr)
         for dim in ("m", "n"):
+            if A.get("gen") != "psvd":
+                break
             if A[dim] > 1 and min(A["m"] - (dim == "m"), A["n"] - (dim == "n")) >= max(t["R"], 1):
                 tr = json.loads(json.dumps(trace))
                 st = tr["steps"][si]
